@@ -233,8 +233,13 @@ def _grammar(ctx, keys):
         for a in alts:
             firsts.extend(_first_literals(a))
         lits = _all_literals(expr)
-    except AnalysisError as e:
-        rep.undecided('R18.3', 'make_grammar', str(e))
+    except AnalysisError:
+        # the grammar is not written with the | / + / ~ operators this
+        # structural cross-check reads; what it accepts and how its tokens
+        # are interpreted is decided end to end (R18.5) on the instantiated
+        # grammar, whatever its spelling
+        rep.case({'grammar': 'shape not read structurally; decided end to '
+                  'end under R18.5'}, ('grammar', 'unread'))
         return
     rep.count('grammar operator literals', len(lits), floor=17)
     rep.check('R18.3', 'make_grammar:literals', set(lits) == set(keys),
@@ -527,6 +532,7 @@ def _end_to_end(ctx, keys):
                   'And', 'Or', 'oneOf', 'one_of', 'Combine', 'Opt'):
             interp.pure_calls.add('pyparsing.' + n)
         interp.pure_methods.update({'parseString', 'parse_string'})
+        interp.pure_prefixes = ('pyparsing.',)
         interp.method_raises['parseString'] = ['pyparsing.ParseException']
         interp.method_raises['parse_string'] = ['pyparsing.ParseException']
         interp.rebind_methods['setParseAction'] = _rebind_parse_action
